@@ -626,7 +626,11 @@ func (t *Teamserver) handleRequest(id string) {
 		pk := client.Packager.CreatePackage(string(EventPackage))
 		pk.Head.Time = time.Now().Format("02/01/2006 15:04:05")
 
-		t.EventAppend(pk)
+		// listener requests are not retained as they are: the teamserver records its own
+		// announcement once (and only if) the listener exists
+		if pk.Head.Event != packager.Type.Listener.Type {
+			t.EventAppend(pk)
+		}
 		t.DispatchEvent(pk)
 	}
 }
